@@ -51,6 +51,15 @@ class Ser:
         if len(self.values) != len(self.index):
             raise Unsupported("series length mismatch")
 
+    def items(self):
+        return list(zip(self.index, self.values))
+
+    def keys(self):
+        return list(self.index)
+
+    def __len__(self):
+        return len(self.values)
+
     # -- helpers
     def _zip(self, other, fn):
         if isinstance(other, Ser):
